@@ -280,6 +280,27 @@ fn arbitrary_text() -> BoxedStrategy<Vec<u8>> {
     proptest::collection::vec(b, 0..=12).boxed()
 }
 
+/// a conformant value (or a bare number / bare unit) padded with blanks on either side, as a sloppy bridge might
+/// forward it: not conformant, to be ignored
+fn padded_text() -> BoxedStrategy<Vec<u8>> {
+    let blank = || proptest::collection::vec(prop_oneof![3 => Just(b' '), 1 => Just(b'\t')], 0..=3);
+    (blank(), valid_text(), 0u8..4, blank())
+        .prop_map(|(l, mut v, cut, r)| {
+            match cut {
+                1 => {
+                    v.pop();
+                }
+                2 => v = v.last().map(|u| vec![*u]).unwrap_or_default(),
+                _ => {}
+            }
+            let mut out = l;
+            out.extend(v);
+            out.extend(r);
+            out
+        })
+        .boxed()
+}
+
 fn any_text() -> BoxedStrategy<Vec<u8>> {
     prop_oneof![3 => valid_text(), 3 => mutant_text(), 1 => arbitrary_text()].boxed()
 }
@@ -289,6 +310,7 @@ fn parse_case() -> BoxedStrategy<Case> {
         6 => valid_text().prop_map(|s| Case::Parse { vals: vec![Val::of(&s)], mutant: false }),
         10 => mutant_text().prop_map(|s| Case::Parse { vals: vec![Val::of(&s)], mutant: true }),
         5 => arbitrary_text().prop_map(|s| Case::Parse { vals: vec![Val::of(&s)], mutant: false }),
+        3 => padded_text().prop_map(|s| Case::Parse { vals: vec![Val::of(&s)], mutant: false }),
         2 => (any_text(), any_text()).prop_map(|(a, b)| Case::Parse { vals: vec![Val::of(&a), Val::of(&b)], mutant: false }),
     ]
     .boxed()
@@ -330,6 +352,8 @@ fn base_us() -> BoxedStrategy<u64> {
         2 => 3_000u64..=60_000,
         2 => (2_000u64..=200_000).prop_map(|ms| ms * 1000),
         1 => Just(3_600_000_000u64),
+        // a day and more: long deadlines are deadlines too (virtual time makes them cheap)
+        1 => prop_oneof![Just(68_720_000_000u64), Just(86_400_000_000u64), Just(30 * 86_400_000_000u64)],
     ]
     .boxed()
 }
@@ -462,6 +486,14 @@ fn enforce_case() -> BoxedStrategy<Case> {
                         srv_cfg,
                         stall: srv_cfg & 0x10 != 0,
                     };
+                    // set_timeout can only say what fits 8 digits and a unit: beyond 99999999 ms the header is in
+                    // seconds and may denote up to a second less than asked for (family (a) judges that); the
+                    // enforcement scenarios need the exact deadline, so such a caller timeout is given as a header
+                    if let Some(ReqTo::Set { us }) = &s.req_to {
+                        if *us > 99_999_999_000 {
+                            s.req_to = Some(ReqTo::Raw { text: format!("{}S", us / 1_000_000) });
+                        }
+                    }
                     match zero {
                         1 => s.ep_us = Some(0),
                         2 => s.srv_us = Some(0),
